@@ -46,7 +46,9 @@ def check_one(desc, acc):
     N, E = desc["nodes"], desc["edges"]
     base = dict(desc=C.show(desc))
     size = len(E) + len(N)
-    for detour in (False, True, 2):
+    n_e = len(E)
+    churns = [("churn", i, j) for i in range(n_e) for j in range(n_e) if i != j] if (kind == "H" and 2 <= n_e <= 4) else ([2] if n_e >= 2 else [])
+    for detour in [False, True] + churns:
         h = C.build(desc, detour=detour)
         w = dict(base, detour=detour)
 
